@@ -234,6 +234,12 @@ func (st *state) validate(instance reflect.Value, schema *Schema, callerAnns *an
 				}
 			}
 			if dynamicSchema == nil {
+				// No resource in the dynamic scope declares the anchor (the initially
+				// resolved target is in a resource that has not been entered):
+				// the reference keeps its lexical target.
+				dynamicSchema = schemaInfo.dynamicRefDefault
+			}
+			if dynamicSchema == nil {
 				return fmt.Errorf("missing dynamic anchor %q", schemaInfo.dynamicRefAnchor)
 			}
 			if err := st.validate(instance, dynamicSchema, &anns); err != nil {
